@@ -83,9 +83,9 @@ def harmless(op):
     raise KeyError(n)
 
 
-def oracle(blk, vals):
-    """Least set: v live iff used by a non-removable op, or by an op one of whose results is live."""
-    live = set()
+def oracle(blk, vals, escaping=()):
+    """Least set: v live iff it reaches an exit boundary, is used by a non-removable op, or by an op one of whose results is live."""
+    live = {id(v) for v in escaping}
     changed = True
     ops = []
     o = blk._first_op
@@ -104,6 +104,29 @@ def oracle(blk, vals):
     return live
 
 
+_EB = {}
+
+
+def exit_boundary_class():
+    """A helper analysis standing for 'these values are returned from a public function': it hands the lattices of the escaping values to the public
+    LivenessAnalysis.set_all_to_exit_states.  Whether it is initialised before or after the liveness walk is a matter of processing order only."""
+    if "cls" not in _EB:
+        from xdsl.analysis.dataflow import DataFlowAnalysis
+
+        class ExitBoundary(DataFlowAnalysis):
+            liveness = None
+            escaping = ()
+
+            def initialize(self, op):
+                self.liveness.set_all_to_exit_states([self.liveness.get_lattice_element(v) for v in self.escaping])
+
+            def visit(self, point):
+                pass
+
+        _EB["cls"] = ExitBoundary
+    return _EB["cls"]
+
+
 def solve(spec, mode, seed, order):
     from xdsl.analysis.dataflow import DataFlowSolver
     from xdsl.analysis.dead_code_analysis import DeadCodeAnalysis
@@ -112,12 +135,20 @@ def solve(spec, mode, seed, order):
 
     holder, top, blk, vals = build(spec)
     solver = DataFlowSolver(Context())
-    if order == "dca-first":
+    esc = [vals[r % len(vals)] for r in spec.get("escape", ())] if vals else []
+    boundary = None
+    if esc and order.endswith("boundary-first"):
+        boundary = solver.load(exit_boundary_class())
+    if order.startswith("dca-first"):
         solver.load(DeadCodeAnalysis)
-        solver.load(LivenessAnalysis)
+        liveness = solver.load(LivenessAnalysis)
     else:
-        solver.load(LivenessAnalysis)
+        liveness = solver.load(LivenessAnalysis)
         solver.load(DeadCodeAnalysis)
+    if esc and boundary is None:
+        boundary = solver.load(exit_boundary_class())
+    if boundary is not None:
+        boundary.liveness, boundary.escaping = liveness, tuple(esc)
     if mode != "default":
         solver._worklist = Schedule(mode, random.Random(seed))
     solver.initialize_and_run(top)
@@ -125,7 +156,7 @@ def solve(spec, mode, seed, order):
     for v in vals:
         st = solver.lookup_state(v, Liveness)
         got.append(bool(st is not None and st.is_live))
-    return holder, blk, vals, got
+    return holder, blk, vals, got, esc
 
 
 MODES = ["default", "fifo", "lifo", "random", "random-dedup"]
@@ -135,17 +166,17 @@ MODES = ["default", "fifo", "lifo", "random", "random-dedup"]
 def check_program(spec, seed):
     first = None
     for mode in MODES:
-        for order in ("dca-first", "liveness-first"):
+        for order in (("dca-first", "liveness-first", "dca-first/boundary-first", "liveness-first/boundary-first") if spec.get("escape") else ("dca-first", "liveness-first")):
             for rep in range(3 if mode.startswith("random") else 1):
                 try:
-                    holder, blk, vals, got = solve(spec, mode, seed * 31 + rep, order)
+                    holder, blk, vals, got, esc = solve(spec, mode, seed * 31 + rep, order)
                 except Exception as e:  # noqa: BLE001
                     return {"program": str(build(spec)[0]), "schedule": mode, "load order": order, "raised": repr(e), "key": "C25/raises"}
-                exp_ids = oracle(blk, vals)
+                exp_ids = oracle(blk, vals, esc)
                 exp = [id(v) in exp_ids for v in vals]
                 if got != exp:
                     bad = [i for i in range(len(vals)) if got[i] != exp[i]]
-                    return {"program": str(holder), "schedule": mode, "load order": order, "seed": seed * 31 + rep,
+                    return {"program": str(holder), "schedule": mode, "load order": order, "seed": seed * 31 + rep, "escaping value indices": list(spec.get("escape", ())),
                             "value index (block args first, then results in order)": bad[0],
                             "analysis says live": got[bad[0]], "statement says live": exp[bad[0]], "key": "C25/liveness"}
                 if first is None:
@@ -163,7 +194,11 @@ def gen(rnd):
         kind = rnd.choice(KINDS) if rnd.random() < 0.5 else "pure"
         ops.append((kind, [rnd.randrange(0, 50) for _ in range(rnd.randrange(0, 4))], rnd.randrange(0, 3)))
     ret = [rnd.randrange(0, 50) for _ in range(rnd.randrange(0, 3))]
-    return {"top": top, "nargs": nargs, "ops": ops, "ret": ret}
+    spec = {"top": top, "nargs": nargs, "ops": ops, "ret": ret}
+    if rnd.random() < 0.4:
+        # values handed to set_all_to_exit_states (a backward-propagation boundary), before or after the liveness walk
+        spec["escape"] = [rnd.randrange(0, 50) for _ in range(rnd.randrange(1, 3))]
+    return spec
 
 
 def small_family():
@@ -180,6 +215,10 @@ def small_family():
             ops = [(k, [] if r is None else [r], 1) for k, r in combo]
             for ret in ([], [n]):  # nothing / the last value
                 out.append({"top": "func", "nargs": 1, "ops": ops, "ret": ret})
+            if n and all(k == "pure" for k, _r in combo):
+                # all-pure programs: nothing is live unless a value reaches an exit boundary
+                out.append({"top": "func", "nargs": 1, "ops": ops, "ret": [], "escape": [n]})
+                out.append({"top": "module", "nargs": 0, "ops": ops, "ret": [], "escape": [n - 1]})
     return out
 
 
